@@ -118,7 +118,7 @@ def task(t):
             good = [o for o in outs if not o.panic]
             R.vacuity.append("%s: %d fitted paths" % (pair, len(good)))
             if len(good) < 2 and len(set(esc.values())) > 1:
-                R.inconclusive.append("%s: fitted operator shows a single path although %d units are eligible" % (pair, len(elig)))
+                R.notes.append("%s: a single fitted path is feasible inside the amount box although %d units are eligible" % (pair, len(elig)))
     R.absorb_solver(sv)
     return R
 
